@@ -60,7 +60,7 @@ class Builtins:
                       patterns=[th.m_key(t, i)]),
             z3.ForAll([k], z3.Implies(z3.Select(th.m_hasA(t), k),
                                       z3.And(th.m_idx(t, k) >= 0, th.m_idx(t, k) < th.vlen(t), th.m_key(t, th.m_idx(t, k)) == k)),
-                      patterns=[th.m_idx(t, k)]),
+                      patterns=[th.m_idx(t, k), z3.Select(th.m_hasA(t), k)]),
         ]
         st.add(*facts)
         self.standing.extend(facts)
@@ -75,7 +75,10 @@ class Builtins:
                 return kv
             vv = VVal(z3.Select(th.m_getA(t), kt), kind=self.map_value_kind.get(str(t)))
             return vv if what == 'values' else VTuple((kv, vv))
-        return VIter(th.vlen(t), at)
+        res = VIter(th.vlen(t), at)
+        if what == 'keys':
+            object.__setattr__(res, '_map_keys_of', t)
+        return res
 
     def set_iter(self, t, has, st: State) -> VIter:
         th = self.th
@@ -335,6 +338,10 @@ class Builtins:
         if isinstance(x, VListB) and target in ('list', 'tuple'):
             return [(x, st)] if target == 'list' else [(VVal(self.toVal(x, st), fresh=True, kind='seq'), st)]
         if isinstance(x, VIter):
+            if target == 'set' and getattr(x, '_map_keys_of', None) is not None:
+                return [(VSetB(th.m_hasA(x._map_keys_of)), st)]
+            if target in ('list', 'tuple') and x.keep is None and x.static is None:
+                return [(x, st)]        # immutable snapshot of an iteration source (only iterated / reversed afterwards)
             return self.iter_to_container(x, target, st, node)
         if isinstance(x, VVal):
             if x.kind in ('seq', 'str') and target in ('list', 'tuple'):
@@ -388,8 +395,17 @@ class Builtins:
 
     def bi_iter(self, args, kwargs, st, node):
         x = args[0]
-        if isinstance(x, (VListB,)):
-            return [(self.itersrc(x, st, node), st)]
+        th = self.th
+        if isinstance(x, (VListB,)) or (isinstance(x, VTuple) and x.is_list):
+            # a one-shot iterator over a list: the same abstract value as a generator yielding its elements
+            if isinstance(x, VTuple):
+                arr0 = th.dflt_seq
+                for kk, itv in enumerate(x.items):
+                    arr0 = z3.Store(arr0, kk, self.toVal(itv, st))
+                x = VListB(arr0, z3.IntVal(len(x.items)))
+            i = z3.Int('i!it')
+            arr = z3.Lambda([i], z3.If(z3.And(i >= 0, i < x.n), z3.Select(x.arr, i), th.dflt))
+            return [(VVal(th.mk_gen(arr, x.n), fresh=True, kind='gen'), st)]
         return [(self.itersrc(x, st, node.args[0] if node is not None else None), st)]
 
     def bi_next(self, args, kwargs, st, node):
@@ -905,4 +921,40 @@ class Builtins:
             return [(VBool(th.fn('val_lt', th.Val, th.Val, th.B)(V(0), V(1))), st)]
         if name == 'card':
             return self.bi_len(args, kwargs, st, node)
+        if name in ('mhas', 'mget', 'without_key'):
+            m = args[0]
+            if isinstance(m, VMapB):
+                has, get = m.has, m.get
+            else:
+                has, get = th.m_hasA(V(0)), th.m_getA(V(0))
+            k = V(1)
+            if name == 'mhas':
+                return [(VBool(z3.Select(has, k)), st)]
+            if name == 'mget':
+                return [(VVal(z3.Select(get, k)), st)]
+            return [(VMapB(z3.Store(has, k, False), get), st)]
+        if name == 'shas':
+            s_ = args[0]
+            has = s_.has if isinstance(s_, VSetB) else th.s_hasA(V(0))
+            return [(VBool(z3.Select(has, V(1))), st)]
+        if name in ('as_map', 'as_seq', 'as_set'):
+            return [(VVal(V(0), kind={'as_map': 'map', 'as_seq': 'seq', 'as_set': 'set'}[name], fresh=getattr(args[0], 'fresh', False)), st)]
+        if name == 'sat':
+            a0 = args[0]
+            if isinstance(a0, VListB):
+                return [(VVal(z3.Select(a0.arr, self.toInt(args[1], st))), st)]
+            return [(VVal(z3.Select(th.sq_arr(V(0)), self.toInt(args[1], st))), st)]
+        if name in ('slen', 'mlen'):
+            return self.bi_len([args[0] if not isinstance(args[0], VVal) else VVal(args[0].term, kind='seq')], {}, st, node)
+        if name == 're_compile_raises':
+            return [(VBool(th.fn('re_compile_raises', th.Val, th.B)(V(0))), st)]
+        if name == 're_compile':
+            return [(VVal(th.fn('re_compile', th.Val, th.Val)(V(0))), st)]
+        if name in ('methraises', 'methcall'):
+            # methraises("fromisoformat", recv, *args)
+            mname = args[0].py[1]
+            a = [self.toVal(x, st) for x in args[1:]]
+            if name == 'methraises':
+                return [(VBool(th.fn(f'methraises_{mname}_{len(a) - 1}', *([th.Val] * len(a)), th.B)(*a)), st)]
+            return [(VVal(th.fn(f'meth_{mname}_{len(a) - 1}', *([th.Val] * len(a)), th.Val)(*a)), st)]
         raise OutOfSubset(f'spec function {name}', node)
